@@ -1,5 +1,10 @@
-(* L2 — global safety of the Raft protocol of internal/raft on an abstract network
-   (stage 1: fixed voting set V, quorum = |V|/2+1, no compaction, no membership change).
+(* L2 — global safety of the Raft protocol of internal/raft on an abstract network.
+     stage 1   fixed voting set V, quorum = |V|/2+1, no compaction, no membership change
+     stage 2   + log compaction and InstallSnapshot          (forward simulation to stage 1)
+     stage 3   + single-server membership change applied at commit, with the two guards
+               the code has                                  (own inductive invariant)
+     stage 2+3 both                                          (forward simulation to stage 3)
+   The first part of this file is stage 1.
    Statements only: each theorem is closed by [exact <lemma>]; proofs live in
    Proofs/RaftNet{Lists,Election,Log,CommitDefs,Commit,Safety}.v.
 
@@ -55,6 +60,25 @@ Theorem election_safety : forall V, NoDup V -> forall n i j,
   term (nodes n i) = term (nodes n j) -> i = j.
 Proof. exact RaftNetElection.election_safety. Qed.
 Print Assumptions election_safety.
+
+(* a granted vote is the voter's recorded vote while it stays in that term
+   (grant_msg_reflects_vote), and a node never changes its vote within a term *)
+Theorem grant_reflects_vote : forall V, NoDup V -> forall n t w c vl,
+  reachable V n -> In (Vote t w c vl) (msgs n) ->
+  t < term (nodes n w) \/ (term (nodes n w) = t /\ voted (nodes n w) = Some c).
+Proof. exact RaftNetElection.grant_reflects_vote. Qed.
+Print Assumptions grant_reflects_vote.
+
+Theorem vote_stable_in_term : forall V n l n' w c,
+  step V n l n' -> voted (nodes n w) = Some c -> term (nodes n' w) = term (nodes n w) ->
+  voted (nodes n' w) = Some c.
+Proof. exact RaftNetElection.vote_stable_in_term. Qed.
+Print Assumptions vote_stable_in_term.
+
+Theorem terms_monotone : forall V n l n' i,
+  step V n l n' -> term (nodes n i) <= term (nodes n' i).
+Proof. exact RaftNetElection.step_term_mono. Qed.
+Print Assumptions terms_monotone.
 
 (* a leader owns a quorum of Vote messages of its term (leader_only_via_quorum) *)
 Theorem leader_has_vote_quorum : forall V, NoDup V -> forall n i,
@@ -200,9 +224,6 @@ Print Assumptions nodes_obs_eqb_eq.
 
 Definition V3 : list id := [1; 2; 3].
 
-Lemma V3_nodup : NoDup V3.
-Proof. repeat constructor; simpl; intuition discriminate. Qed.
-
 Definition e1 : entry := noop 1.
 Definition e2 : entry := mkE 1 42.
 
@@ -257,11 +278,8 @@ Proof. vm_compute. repeat split. Qed.
 
 (* so the hypotheses of the theorems are satisfiable: the final state is reachable ... *)
 Example run2_reachable :
-  exists n, run V3 (init) (run_a ++ run_b) = Some n /\ reachable V3 n.
-Proof.
-  destruct (run V3 (init) (run_a ++ run_b)) as [n|] eqn:E; [|vm_compute in E; discriminate].
-  exists n. split; [reflexivity|]. exact (RaftNetSafety.run_reachable V3 _ n E).
-Qed.
+  forall n, run V3 (init) (run_a ++ run_b) = Some n -> reachable V3 n.
+Proof. exact (RaftNetSafety.run_reachable V3 (run_a ++ run_b)). Qed.
 
 (* ... and a disabled label is refused: node 2 cannot become leader without votes, a
    second vote in the same term for another candidate is refused, an AE that would cut
@@ -597,11 +615,8 @@ Proof. vm_compute. repeat split. Qed.
 
 (* the run is a run of the relation, so its states are reachable *)
 Example run_d_reachable :
-  exists s, run3 cfg3 cc_payload init3 run_d = Some s /\ reachable3 cfg3 cc_payload s.
-Proof.
-  destruct (run3 cfg3 cc_payload init3 run_d) as [s|] eqn:E; [|vm_compute in E; discriminate].
-  exists s. split; [reflexivity|]. exists run_d. now apply RaftNetCfgSafety.run3_sound.
-Qed.
+  forall s, run3 cfg3 cc_payload init3 run_d = Some s -> reachable3 cfg3 cc_payload s.
+Proof. exact (RaftNetCfgSafety.run3_reachable cfg3 cc_payload run_d). Qed.
 
 (* ================================================================== *)
 (* Stages 2 and 3 together (Model/RaftNetCfgSnap.v): membership change with     *)
